@@ -16,13 +16,13 @@
    written, mask, band, pixel (r, c) -- also outside the image --, so no side condition is hidden in a
    totalised read.  None of them needs model = spec: they are about how the interval enters the
    computation (range of the plane index, dsp = int((disp - dmin) * subpix), the two loops of cv_masked). *)
-From Coq Require Import ZArith List Bool QArith Qround.
+From Coq Require Import ZArith List Bool QArith Qround Lia.
 From Pandora Require Import Lib.Ext Model.MatchingCost Spec.Cost Model.Interval Spec.Interval
                             Proofs.MatchingCostP Proofs.IntervalP Proofs.IntervalWtaP.
 From Pandora Require Model.Cbca Proofs.CbcaP Proofs.IntervalCbcaP.
 From Pandora Require Model.Refine Model.Filters Model.CrossCheck Model.Interp Spec.CrossCheck Spec.Interp Spec.Filters.
 From Pandora Require Import Model.IntervalPipeline.
-From Pandora Require Proofs.IntervalPipelineP.
+From Pandora Require Proofs.IntervalPipelineP Proofs.IntervalRefineP.
 From Pandora Require Gen.RefineConsts Gen.Constants Gen.ValConst.
 Import ListNotations.
 Open Scope Z_scope.
@@ -304,6 +304,44 @@ Proof.
   - exists st. split; [exact E | exact I].
 Qed.
 
+(* ---- "... and within its own per-pixel interval right after the disparity and refinement steps"
+
+   [cost_row val m inp dmin dmax r c] = cv[r, c, :] of the masked volume, as loop_refinement reads it;
+   [Refine.loop_pixel] = one pixel of loop_refinement (C06's model, vfit or quadratic [me], min / max [mm]).
+   A valid pixel holding a SAMPLE of the axis that lies inside its own [gmin, gmax] (what the disparity step
+   gives it: C09_wta_within_interval) is refined -- no exception, no read outside the row -- to a disparity
+   inside its own [gmin, gmax] (and inside [dmin, dmax], at most half a sample away).  Per-pixel grids and
+   scalar intervals alike; every measure, subpix, window, mask.  (For a disparity that is NOT a sample, i.e.
+   a refinement that runs after a filter or a validation, only the global interval is proved:
+   C09_final_disp_in_global_interval; the property's clause is about "right after".) *)
+Theorem C09_refined_within_pixel_interval : forall val m inp dmin dmax me mm r c k mask res,
+  0 < i_s inp -> dmin <= dmax -> 0 <= k < nb_disp (i_s inp) dmin dmax ->
+  i_gmin inp r c * i_s inp <= disp_scaled (i_s inp) dmin k <= i_gmax inp r c * i_s inp ->
+  Z.land mask CrossCheck.MSK_INVALID = 0 ->
+  Refine.loop_pixel KK me mm (inject_Z dmin) (inject_Z dmax) (i_s inp) (cost_row val m inp dmin dmax r c)
+                    (Some (sample_q (i_s inp) dmin k)) mask = res ->
+  exists d' c' mask', res = Refine.POk (Some d') c' mask'
+    /\ (inject_Z (i_gmin inp r c) <= d' /\ d' <= inject_Z (i_gmax inp r c))%Q
+    /\ (inject_Z dmin <= d' /\ d' <= inject_Z dmax)%Q
+    /\ (Qabs.Qabs (d' - sample_q (i_s inp) dmin k) * inject_Z (i_s inp) <= 1 # 2)%Q.
+Proof. exact IntervalRefineP.refined_within_pixel_interval. Qed.
+
+(* the two steps in a row, for a pixel of the image that has a computable cost *)
+Theorem C09_wta_then_refinement_within_pixel_interval :
+  forall val m inp dmin dmax mx B invalid conf wmask me mm r c k0 v0 mask,
+  1 <= B -> 0 < i_s inp -> dmin <= dmax -> 0 <= r < i_ny inp -> 0 <= c < i_nx inp ->
+  0 <= k0 < nb_disp (i_s inp) dmin dmax -> mvolume m inp dmin dmax r c k0 = Some v0 ->
+  Z.land mask CrossCheck.MSK_INVALID = 0 ->
+  exists d d' c' mask',
+    wta_on_volume val m inp dmin dmax mx B invalid conf wmask r c = Some d
+    /\ Refine.loop_pixel KK me mm (inject_Z dmin) (inject_Z dmax) (i_s inp) (cost_row val m inp dmin dmax r c)
+                         (Some d) mask = Refine.POk (Some d') c' mask'
+    /\ (inject_Z (i_gmin inp r c) <= d /\ d <= inject_Z (i_gmax inp r c))%Q
+    /\ (inject_Z (i_gmin inp r c) <= d' /\ d' <= inject_Z (i_gmax inp r c))%Q
+    /\ (inject_Z dmin <= d' /\ d' <= inject_Z dmax)%Q
+    /\ (Qabs.Qabs (d' - d) * inject_Z (i_s inp) <= 1 # 2)%Q.
+Proof. exact IntervalRefineP.wta_then_refinement_within_pixel_interval. Qed.
+
 (* ---- cross-based aggregation (C11's model) *)
 
 (* the aggregated plane depends on its own input plane at the pixels of the image only (extensional
@@ -391,6 +429,63 @@ Example C09_example :
                    (Some (-9999)%Q) (fun _ _ => []) (fun _ _ => 0) 1 2 = Some (1 # 2)%Q.
 Proof. vm_compute. repeat split. Qed.
 
+(* ---- non-vacuity of the last clause: a 3 x 4 map on [-1, 2] (subpix 1) with an invalid pixel (flag 2), information
+   bits, and six steps in a row -- refinement (vfit), median 3 x 3, validation with sgm interpolation, bilateral,
+   refinement again (quadratic, on off-grid disparities), validation without interpolation.  The hypotheses of
+   C09_final_disp_in_global_interval hold, the run completes, and the final map holds off-grid values
+   (17/20, 67/80, 11/14), all inside [-1, 2]; the invalid pixel keeps its -9999 *)
+Definition pl_grid {A} (d : A) (rows : list (list A)) : Z -> Z -> A :=
+  fun r c => if (r <? 0) || (c <? 0) then d else nth (Z.to_nat c) (nth (Z.to_nat r) rows []) d.
+Definition pl_q (z : Z) : option Q := Some (inject_Z z).
+Definition pl_show {A} (nr nc : Z) (f : Z -> Z -> A) : list (list A) :=
+  map (fun r => map (fun c => f r c) (CrossCheck.zrange 0 nc)) (CrossCheck.zrange 0 nr).
+Definition pl_X := mkCtx 3 4 (-1) 2 1 0 100 50.
+Definition pl_disp := pl_grid None [[pl_q 0; pl_q 1; pl_q 2; pl_q (-1)]; [pl_q 1; pl_q 0; pl_q (-9999); pl_q 2];
+                                    [pl_q 2; pl_q 1; pl_q 1; pl_q 0]].
+Definition pl_mask := pl_grid 0 [[0; 0; 4; 0]; [0; 0; 2; 0]; [0; 8; 0; 0]].
+Definition pl_cv : Z -> Z -> list (option Q) :=
+  fun r c => if c =? 1 then [pl_q 9; pl_q 4; pl_q 2; pl_q 7] else [pl_q 3; pl_q 1; None; pl_q 5].
+Definition pl_other :=
+  CrossCheck.mkDS 3 4 (pl_grid None [[pl_q 0; pl_q (-1); pl_q 1; pl_q 1]; [pl_q (-1); pl_q 0; pl_q 0; pl_q 0];
+                                      [pl_q 0; pl_q (-1); pl_q (-2); pl_q 0]])
+                  (fun _ _ => 0) [] (-2) 1 0.
+Definition pl_steps :=
+  [SRefine Refine.Vfit Refine.MMin pl_cv; SMedian 1; SValidation 1 pl_other (Some Interp.Sgm);
+   SBilateral (2 # 3) (fun _ _ => 1%Q) (fun _ => 1%Q); SRefine Refine.Quadratic Refine.MMin pl_cv;
+   SValidation 0 pl_other None].
+Example C09_example_pipeline :
+  ctx_ok pl_X /\ Forall (step_ok pl_X) pl_steps
+  /\ Spec.Interp.never_both 3 4 pl_mask
+  /\ in_global_interval 3 4 (-1) 2 (dstate_of pl_disp pl_mask)
+  /\ match run_steps pl_X pl_steps (mkP pl_disp pl_mask []) with
+     | Some st =>
+       pl_show 3 4 (p_disp st)
+       = [[Some 0; Some 0; Some (17 # 20); Some (-1)]; [Some 1; Some (67 # 80); Some (-9999); Some (17 # 20)];
+          [Some 2; Some (11 # 14); Some 1; Some 0]]%Q
+       /\ pl_show 3 4 (p_mask st) = [[8; 280; 284; 8]; [256; 520; 2; 280]; [8; 280; 256; 8]]
+     | None => False
+     end.
+Proof.
+  split; [unfold ctx_ok; cbn; lia|].
+  split.
+  { assert (CV : step_ok pl_X (SRefine Refine.Vfit Refine.MMin pl_cv) /\ step_ok pl_X (SRefine Refine.Quadratic Refine.MMin pl_cv)).
+    { split; intros r c _ _; unfold pl_cv; destruct (c =? 1); reflexivity. }
+    unfold pl_steps. repeat apply Forall_cons; try apply Forall_nil; try exact I; try (apply CV).
+    - cbn. lia.
+    - split; [discriminate|]. cbv zeta. repeat split; intros; try discriminate; reflexivity. }
+  split.
+  { intros r c Hr Hc.
+    assert (Er : r = 0 \/ r = 1 \/ r = 2) by lia. assert (Ec : c = 0 \/ c = 1 \/ c = 2 \/ c = 3) by lia.
+    destruct Er as [->|[->| ->]]; destruct Ec as [->|[->|[->| ->]]]; reflexivity. }
+  split.
+  { intros r c Hr Hc Hv.
+    assert (Er : r = 0 \/ r = 1 \/ r = 2) by lia. assert (Ec : c = 0 \/ c = 1 \/ c = 2 \/ c = 3) by lia.
+    destruct Er as [->|[->| ->]]; destruct Ec as [->|[->|[->| ->]]];
+      try (vm_compute in Hv; discriminate Hv);
+      (eexists; split; [reflexivity | split; vm_compute; discriminate]). }
+  vm_compute. split; reflexivity.
+Qed.
+
 Print Assumptions C09_two_runs_same_sample.
 Print Assumptions C09_cost_indep_of_interval.
 Print Assumptions C09_slice_index.
@@ -415,6 +510,8 @@ Print Assumptions C09_validity_tests_agree.
 Print Assumptions C09_step_preserves_interval.
 Print Assumptions C09_final_disp_in_global_interval.
 Print Assumptions C09_final_disp_in_global_interval_from_wta.
+Print Assumptions C09_refined_within_pixel_interval.
+Print Assumptions C09_wta_then_refinement_within_pixel_interval.
 Print Assumptions C09_cbca_plane_ext.
 Print Assumptions C09_cbca_slice.
 Print Assumptions C09_cbca_slice_of_nested_intervals.
